@@ -1185,7 +1185,38 @@ impl Actor for SA {
         }
     }
 
-    async fn on_run(&mut self, w: &ActorWeak<Self>) -> Result<bool, String> {
+    // A plain fn as well: its synchronous prefix runs whenever the framework CALLS on_run, whether or not the returned future
+    // is ever polled. How often that happens is part of the observable behaviour (and must not depend on cargo features).
+    #[allow(clippy::manual_async_fn)]
+    fn on_run(&mut self, w: &ActorWeak<Self>) -> impl Future<Output = Result<bool, String>> + Send {
+        self.sh.log.push(K::RunCall { actor: self.idx });
+        self.on_run_body(w)
+    }
+    async fn on_stop(&mut self, w: &ActorWeak<Self>, killed: bool) -> Result<(), String> {
+        self.sh.log.push(K::StopEnter {
+            actor: self.idx,
+            killed,
+        });
+        self.journal.push(format!("stop:{killed}"));
+        let script = self.spec.stop.clone();
+        if script.delay > 0 {
+            tokio::time::sleep(Duration::from_millis(script.delay)).await;
+        }
+        self.run_steps(HookKind::Stop, &script.steps, Me::Weak(w), 0).await;
+        self.sh.log.push(K::StopExit {
+            actor: self.idx,
+            out: script.out,
+        });
+        match script.out {
+            Out::Err => Err(format!("stop-err-{}", self.idx)),
+            Out::Panic => panic!("scripted stop panic actor {}", self.idx),
+            _ => Ok(()),
+        }
+    }
+}
+
+impl SA {
+    async fn on_run_body(&mut self, w: &ActorWeak<Self>) -> Result<bool, String> {
         self.inv += 1;
         let inv = self.inv;
         let idx = self.idx;
@@ -1243,28 +1274,6 @@ impl Actor for SA {
         }
         .await
     }
-
-    async fn on_stop(&mut self, w: &ActorWeak<Self>, killed: bool) -> Result<(), String> {
-        self.sh.log.push(K::StopEnter {
-            actor: self.idx,
-            killed,
-        });
-        self.journal.push(format!("stop:{killed}"));
-        let script = self.spec.stop.clone();
-        if script.delay > 0 {
-            tokio::time::sleep(Duration::from_millis(script.delay)).await;
-        }
-        self.run_steps(HookKind::Stop, &script.steps, Me::Weak(w), 0).await;
-        self.sh.log.push(K::StopExit {
-            actor: self.idx,
-            out: script.out,
-        });
-        match script.out {
-            Out::Err => Err(format!("stop-err-{}", self.idx)),
-            Out::Panic => panic!("scripted stop panic actor {}", self.idx),
-            _ => Ok(()),
-        }
-    }
 }
 
 impl Message<MU> for SA {
@@ -1302,10 +1311,26 @@ impl Message<MS> for SA {
 }
 impl Message<MN> for SA {
     type Reply = ();
-    async fn handle(&mut self, m: MN, r: &ActorRef<Self>) {
-        let uid = m.0.uid;
-        let (_, t0) = self.handle_body(m.0, r).await;
-        self.exit(uid, Rep::Unit, t0);
+    // Deliberately NOT an `async fn`: `Message::handle` is a plain method returning a future, and an implementation may do
+    // (timed) work synchronously before it returns that future. That work is part of handling the message.
+    #[allow(clippy::manual_async_fn)]
+    fn handle(&mut self, m: MN, r: &ActorRef<Self>) -> impl Future<Output = ()> + Send {
+        let pre = std::time::Instant::now();
+        let eager = m.0.flags & F_EAGER != 0;
+        if eager {
+            while pre.elapsed() < Duration::from_micros(1500) {
+                std::hint::spin_loop();
+            }
+        }
+        async move {
+            let uid = m.0.uid;
+            let (_, t0) = self.handle_body(m.0, r).await;
+            self.exit(uid, Rep::Unit, t0);
+            if eager {
+                // measured from the call of handle(): the metrics must cover the synchronous part as well
+                self.sh.log.push(K::SelfTimed { actor: self.idx, uid, ns: pre.elapsed().as_nanos() as u64 });
+            }
+        }
     }
     fn on_tell_result(_: &(), r: &ActorRef<Self>) {
         tell_result(Rep::Unit, r)
